@@ -2,12 +2,12 @@ SPECIFICATION MCSpec
 CONSTANTS
   Relax = {}
   Mode = "honest"
-  MaxBlocks = 3
+  MaxBlocks = 1
   Layouts = {"plain"}
   MaxUnwind = 0
-  Features = {}
-  Defect = "none"
-  MaxReload = 1
+  Features = {"dup_hash"}
+  Defect = "first_match"
+  MaxReload = 0
 CONSTRAINT Bounded
 VIEW View
 INVARIANT TypeOK
